@@ -107,6 +107,14 @@ static void    mon_health_connect(int fd, int srv, int is_tcp)
   }
 }
 
+/* first attempts after which a probe of a failed server was due (retry chance 1: every time) */
+#define HL_MAXEXP 256
+static struct {
+  int      txi;
+  unsigned mask; /* servers that were eligible for the probe */
+} hl_exp[HL_MAXEXP];
+static int hl_nexp;
+
 /* history of the failure counts (one entry per reported state change or list change) */
 #define HL_HIST 1024
 static struct {
@@ -161,6 +169,14 @@ static void mon_health_tx(sim_tx_t *tx, const sdns_query_t *q, const uint8_t *ms
     return;
   }
   (void)hl_cnt_saved;
+  if (vh_verbose && app_channel) {
+    ares_slist_node_t *n;
+    for (n = ares_slist_node_first(app_channel->servers); n; n = ares_slist_node_next(n)) {
+      const ares_server_t *sv = ares_slist_node_val(n);
+      vh_trace("  [dbg] server idx %zu failures %zu probe_pending %d next_retry %lld.%06u", sv->idx, sv->consec_failures, (int)sv->probe_pending,
+               (long long)sv->next_retry_time.sec, sv->next_retry_time.usec);
+    }
+  }
   if (tx->tcp) {
     /* Over a stream the destination is chosen when the query is queued on a connection, possibly still being set
      * up, and reaches the server only later; servers are reported good or bad in between.  The instant of the
@@ -245,6 +261,36 @@ static void mon_health_tx(sim_tx_t *tx, const sdns_query_t *q, const uint8_t *ms
     }
     if (pass) {
       hl_rotate_hits[tx->srv]++;
+      /* "failed servers are re-tried by separate probe copies sent after the retry delay": with retry chance 1 a
+       * first attempt that went to a healthy server is accompanied by a probe whenever some failed server is past
+       * its delay and has no probe outstanding */
+      if (prev < 0 && app_cfg.failover_set && app_cfg.failover_chance == 1 && cur_cnt[tx->srv] == 0 && hl_nexp < HL_MAXEXP) {
+        int64_t  delay_us = (int64_t)app_cfg.failover_delay_ms * 1000;
+        unsigned mask     = 0;
+        for (i = 0; i < app_cfg.nsrv_cfg; i++) {
+          int sv = app_cfg.srv_cfg[i], k, unresolved = 0;
+          if (sv == tx->srv || cur_cnt[sv] == 0 || tx->t <= cur_fail_us[sv] + delay_us + 1000) {
+            continue;
+          }
+          for (k = sim_ntx - 2; k >= 0; k--) {
+            if (sim_tx[k].probe_like && sim_tx[k].srv == sv) {
+              /* the probe is over when the server was reported good after it, or reported failed no earlier than
+               * the probe's own timeout (a failure reported before that belongs to some other query) */
+              int64_t to_us = (int64_t)(app_cfg.timeout_ms > 250 ? app_cfg.timeout_ms : 250) * 1000;
+              unresolved    = !(hl_last_success_us[sv] > sim_tx[k].t || cur_fail_us[sv] >= sim_tx[k].t + to_us);
+              break;
+            }
+          }
+          if (!unresolved) {
+            mask |= 1u << sv;
+          }
+        }
+        if (mask) {
+          hl_exp[hl_nexp].txi  = (int)(tx - sim_tx);
+          hl_exp[hl_nexp].mask = mask;
+          hl_nexp++;
+        }
+      }
       return;
     }
     not_first_only = (legal & 1);
@@ -306,6 +352,25 @@ static void mon_health_tx(sim_tx_t *tx, const sdns_query_t *q, const uint8_t *ms
 static void mon_health_anchor_final(void)
 {
   int i, j;
+  /* probes that were due */
+  for (i = 0; i < hl_nexp; i++) {
+    const sim_tx_t *a  = &sim_tx[hl_exp[i].txi];
+    int             ok = 0;
+    MON_EVAL("health_probe_due");
+    for (j = 0; j < sim_ntx && !ok; j++) {
+      if (j != hl_exp[i].txi && sim_tx[j].qid != a->qid && sim_tx[j].qtype == a->qtype && !strcasecmp(sim_tx[j].qname, a->qname) &&
+          sim_tx[j].srv >= 0 && sim_tx[j].srv != a->srv && sim_tx[j].t >= a->t && sim_tx[j].t <= a->t + 1000) {
+        /* (the mask is a conservative subset of the servers the library may consider due: any probe satisfies it) */
+        ok = 1;
+      }
+    }
+    if (!ok) {
+      vh_violation("health:probe-missing",
+                   "first attempt of '%s' went to healthy server %d while failed server(s) (mask 0x%x) were past the retry delay with no probe outstanding and the retry chance is 1, but no probe was sent",
+                   a->qname, a->srv, hl_exp[i].mask);
+      return;
+    }
+  }
   /* probes recognised before the question they copy was seen */
   for (i = 0; i < sim_ntx; i++) {
     sim_tx_t *a = &sim_tx[i];
@@ -478,6 +543,7 @@ static void run_failover(vh_rng_t *rng)
   sim_connect_hook      = mon_health_connect;
   memset(hl_snap_state, 0, sizeof(hl_snap_state));
   hl_nhist = 0;
+  hl_nexp  = 0;
   mon_server_state_hook = mon_health_state;
   sim_read_hook         = hl_on_read;
   hl_config_hook        = hl_reset_config;
